@@ -196,6 +196,23 @@ class Writer:
                 f"(in {segment_addresses_str})."
             )
 
+        if segment_start < 0 or segment_start + segment_length > (1 << 64):
+            raise FlipJumpWriteFjmException(
+                f"the segment must lie inside the 64-bit word-address space (in {segment_addresses_str})."
+            )
+
+        if data_length < 0 or data_length % 2 == 1:
+            raise FlipJumpWriteFjmException(
+                f"data-length must be a non-negative even number of words - an integer number of ops "
+                f"(in {segment_addresses_str})."
+            )
+
+        if data_start < 0 or data_start + data_length > len(self.data):
+            raise FlipJumpWriteFjmException(
+                f"the data range [{data_start}, {data_start + data_length}) exceeds the {len(self.data)} "
+                f"data words added so far (in {segment_addresses_str})."
+            )
+
         self._validate_segment_not_overlapping(segment_start, segment_length, data_start, data_length)
 
         if self.version in (FJMVersion.RelativeJumpVersion, FJMVersion.CompressedVersion):
@@ -209,6 +226,10 @@ class Writer:
         @param data: [in]: a list of words
         @return: the data start index
         """
+        if data and (min(data) < 0 or max(data) >= (1 << self.word_size)):
+            raise FlipJumpWriteFjmException(
+                f"data words must be {self.word_size}-bit non-negative numbers (in [0, {hex(1 << self.word_size)}))."
+            )
         data_start = len(self.data)
         self.data += data
         return data_start
